@@ -2,7 +2,7 @@
 import json
 import numpy as np
 
-from harness.proj import to_rat, rat_close
+from harness.proj import to_rat, rat_close, relayout
 from harness.core import Machinery
 
 LEVEL = "model_checking"
@@ -26,6 +26,9 @@ def _replay_case(ctx, dutils, c, offset, scale):
         step = (2**32 - 2) // max(1, int(v.max() - v.min()))
         ix = -2**31 + 1 + (v - v.min()) * step
     xs = np.array([np.nan if v == NAN else v * scale for v in c["xs"]], dtype=np.float64)
+    lay = abs(hash((tuple(c["ix"]), tuple(c["xs"]), c["op"])))
+    xs = relayout(xs, lay % 4)               # C / Fortran / strided / float32 (integer storage would lose the NaN)
+    ix = relayout(ix, (lay // 4) % 3)
     xs0 = xs.copy()
     ix0 = ix.copy()
     out, e = _call(dutils.aggregate, ix, xs, c["op"], c["maxnan"])
